@@ -655,7 +655,7 @@ def evaluate_case(case):
                     alt = {"outcome": "timeout", "out": []}
                 finally:
                     signal.alarm(0)
-                if same(real, alt, horizon) is True:
+                if same(real, alt, horizon, kinds=is_flat(case["set"])) is True:
                     found = sub
                     break
             if found:
@@ -760,6 +760,8 @@ def check_cases(cases, rep):
         for k in INT_KEYS + ["byweekday", "until", "count"]:
             if p.get(k) is not None:
                 rep.count("uses:" + k)
+        if p.get("byweekday") is not None and len({w for w, _ in p["byweekday"]}) < len(p["byweekday"]):
+            rep.count("uses:weekday-named-twice")
         if p.get("interval") is not None and p["interval"] < 1:
             rep.count("uses:interval<1")
         if case["set"].get("include"):
@@ -1161,6 +1163,8 @@ def gen_params(rng, sub_ok=True, clean=False):
         big = freq == "YEARLY" and p.get("bymonth") is None
         pool = [1, 2, 3, 4, 5, -1, -2, -5] + ([10, 52, 53, -52, -53] if big else [])
         p["byweekday"] = [[w, (rng.choice(pool) if use_n and not (mixed and i == 0) else 0)] for i, w in enumerate(sorted(days))]
+        if rng.random() < 0.3:
+            p["byweekday"] = weekday_repeats(rng, p["byweekday"], pool if use_n else [0])
     if st["k"] in ("dtobj", "dtstr") or rng.random() < 0.3:
         if rng.random() < 0.3:
             p["byhour"] = some(rng, list(range(24)), 3)
@@ -1363,6 +1367,63 @@ def gen_formula_case(rng):
     return {"kind": "recipe", "mode": mode, "n": rng.choice([3, 5, 8, 13]), "formula": rng.choice(["inline", "inline", "var"]), "set": s}
 
 
+def weekday_repeats(rng, wds, pool):
+    """the same weekday named several times — at other ordinals (`FR(+1),FR(+3)`, `MO(+1),MO(-1)`),
+    plain next to an ordinal (`TU,TU(+2)`), plain duplicates (`MO,WE,MO`) — in written, not
+    calendar, order"""
+    out = [list(x) for x in wds]
+    for _ in range(rng.choice([1, 1, 2])):
+        w, n = rng.choice(out)
+        out.append([w, rng.choice([m for m in list(pool) + [0] if m != n] or [n])])
+    if rng.random() < 0.3:
+        out.append(list(rng.choice(out)))  # an exact duplicate
+    rng.shuffle(out)
+    return out
+
+
+def gen_weekday_case(rng):
+    """MONTHLY / YEARLY rules whose byweekday names one weekday at several ordinals"""
+    freq = rng.choice(["MONTHLY", "MONTHLY", "YEARLY"])
+    st = rnd_start(rng, utc_bias=0.8)
+    p = {"freq": freq, "start": st, "lf": rng.choice([0, 1, 2])}
+    if rng.random() < 0.3:
+        p["interval"] = rng.choice([1, 2, 3])
+    if freq == "YEARLY" and rng.random() < 0.4:
+        p["bymonth"] = some(rng, list(range(1, 13)), 2)
+    big = freq == "YEARLY" and p.get("bymonth") is None
+    pool = [1, 2, 3, 4, 5, -1, -2] + ([10, 30, 52, -10, -52] if big else [])
+    style = rng.choice(["two-ordinals", "first-last", "plain+ordinal", "duplicates", "many"])
+    w = rng.randrange(7)
+    if style == "two-ordinals":
+        a, b = rng.sample(pool, 2)
+        wds = [[w, a], [w, b]]
+    elif style == "first-last":
+        wds = [[w, 1], [w, -1]]
+    elif style == "plain+ordinal":
+        wds = [[w, 0], [w, rng.choice(pool)]]
+    elif style == "duplicates":
+        v = rng.choice([x for x in range(7) if x != w])
+        wds = [[w, 0], [v, 0], [w, 0]]
+    else:
+        wds = weekday_repeats(rng, [[w, rng.choice(pool)], [rng.randrange(7), rng.choice(pool + [0])]], pool)
+    if rng.random() < 0.5:
+        rng.shuffle(wds)
+    if rng.random() < 0.3:
+        wds.append([rng.choice([x for x in range(7) if x != w]), rng.choice(pool + [0, 0])])
+    p["byweekday"] = wds
+    if rng.random() < 0.25:
+        p["count"] = rng.choice([2, 5, 9])
+    s = {"p": p}
+    kind = rng.choice(["rule", "rule", "recipe"])
+    if kind == "rule":
+        return {"kind": "rule", "mode": rng.choice(["next", "for_each"]), "set": s}
+    p["lf"] = rng.choice([0, 1])
+    mode = rng.choice(["next", "next", "for_each"])
+    if mode == "for_each":
+        force_bounded(rng, s)
+    return {"kind": "recipe", "mode": mode, "n": rng.choice([3, 5, 8, 13]), "set": s}
+
+
 def gen_lattice_case(rng):
     """sub-daily rules whose interval lattice may never meet the by-sets: dateutil rejects them
     (in the constructor at the frequency's own level, at the first step above it), taking the
@@ -1412,6 +1473,10 @@ def doc_cases():
     e0 = {"p": {"freq": "WEEKLY", "start": {"k": "datestr", "ymd": [2024, 3, 1]}, "lf": 1}}
     out.append({"kind": "sites", "mode": "next", "layout": {"macro": {"a": 2, "b": 3, "c": 2, "d": 2, "in_file": True}, "flow": {"n": 2, "again": 3}}, "set": e0})
     out.append({"kind": "sites", "mode": "next", "layout": {"foreach": {}, "flow": {"n": 2}}, "set": {"p": dict(e0["p"], count=3)}})
+    # one weekday at several ordinals: first and third Friday, first and last Monday, plain + ordinal
+    for wds in ([[4, 1], [4, 3]], [[0, 1], [0, -1]], [[1, 0], [1, 2]], [[0, 0], [2, 0], [0, 0]], [[4, 3], [2, -1], [4, 1]]):
+        out.append({"kind": "recipe", "mode": "next", "n": 6, "set": ev("MONTHLY", {"k": "date", "ymd": [2024, 3, 1]}, byweekday=wds)})
+    out.append({"kind": "recipe", "mode": "next", "n": 6, "set": ev("YEARLY", {"k": "dtobj", "ymd": [2024, 3, 1], "hms": [9, 0, 0], "off": None}, byweekday=[[6, 1], [6, -1], [6, 20]])})
     # the interval guard (fix 66ecebf): 0 and negative values are recipe errors, not hangs
     for iv in (0, -1):
         out.append({"kind": "recipe", "mode": "next", "n": 3, "set": ev("DAILY", {"k": "date", "ymd": [2024, 3, 1]}, interval=iv)})
@@ -1433,6 +1498,8 @@ def run(ctx, rep, findings):
         "of 2-3 entries - Schedule.Event(...) calls with the same keyword names and different values, "
         "mixed with plain dates (snowfakery_version 3; the older dialect rejects any formula containing "
         "a Schedule.Event call). "
+        "Weekday cases: MONTHLY / YEARLY rules whose byweekday names one weekday several times (other "
+        "ordinals, plain next to ordinal, duplicates, unsorted), both precisions. "
         "Lattice cases: sub-daily rules with intervals that may never meet byhour / byminute / bysecond "
         "(dateutil's empty-rule rejections, error kinds compared on flat schedules). "
         "Call-site recipes: one Event text inside a macro included by 2-4 templates (top level, friend, "
@@ -1456,6 +1523,8 @@ def run(ctx, rep, findings):
         cases.append(gen_lattice_case(ctx.rng))
     for _ in range(ctx.scale(160, 1500, search_factor=2)):
         cases.append(gen_sites_case(ctx.rng))
+    for _ in range(ctx.scale(150, 1500, search_factor=2)):
+        cases.append(gen_weekday_case(ctx.rng))
     for i in range(0, len(cases), 600):
         check_cases(cases[i : i + 600], rep)
         if ctx.time_left() < 60:
